@@ -111,6 +111,8 @@ def one_pair(ctx, alg, iso, cfg, name, kx, ky, lazy):
         ctx.count('generic_' + op)
         if ctx.rng.random() < 0.12:
             ops.check_special_values(ctx, alg, iso, cfg, op, (kx, ky), cid)
+        if ctx.rng.random() < 0.06:
+            ops.check_sympy_values(ctx, alg, iso, cfg, op, (kx, ky), cid)
         if op == 'sub' and set(ky) - set(kx):
             ctx.count('sub_only_b_blades')
         if lazy:
@@ -132,6 +134,8 @@ def one_pair(ctx, alg, iso, cfg, name, kx, ky, lazy):
         res[op] = r
         if ctx.rng.random() < 0.1:
             ops.check_special_values(ctx, alg, iso, cfg, op, (kx,), cid)
+        if ctx.rng.random() < 0.04:
+            ops.check_sympy_values(ctx, alg, iso, cfg, op, (kx,), cid)
         # f(f(a)) == a
         st2, rr = ctx.guarded(20, ops.call_op, alg, op, r)
         if st2 == 'ok':
